@@ -715,6 +715,8 @@ def coq_items(c, r):
         if all(None not in [frs(e[2]) for e in o['entries']] for o in r['out']):
             outs2 = lib.coq_list([spm_out(o) for o in r['out']])
             out.append(('e', f'chk_align_entry {spm_list(c)} (inl {outs2})'))
+            if r['out']:
+                out.append(('i', f'chk_align_idem {outs2}'))
         else:
             out.append(('e', 'false'))
     return out
@@ -768,6 +770,97 @@ def run_corr(ctx, cases, res):
         for t in threads[i:i + 8]:
             t.join()
     return len(items), sorted(failing), compile_fail
+
+
+# ------------------------------------ translator validation: constant evaluator
+def validate_const_evaluator(ctx, n_modules=40):
+    """Translator.load_consts / cval against Python itself: seeded synthetic modules of
+    module-level assignments (tuples, lists, list()/tuple()/range()/slice()/np.array() of other
+    names, negative numbers, names assigned twice, non-constant right-hand sides) are executed,
+    and every value the evaluator claims must be the value Python computed (range -> tuple,
+    ndarray -> list); a name assigned twice or from a non-constant must not be claimed."""
+    import ast as _ast
+    import random
+    rng = random.Random(ctx.rng.randint(0, 2 ** 30))
+    try:
+        import numpy as np
+    except ImportError:                       # pragma: no cover
+        np = None
+    checked, bad = 0, []
+
+    def norm(x):
+        """what the evaluator stands for: a range is its tuple, an int ndarray its list"""
+        if isinstance(x, range):
+            return tuple(x)
+        if np is not None and isinstance(x, np.integer):
+            return int(x)
+        if np is not None and isinstance(x, np.ndarray):
+            return [int(y) for y in x]
+        if isinstance(x, tuple):
+            return tuple(norm(y) for y in x)
+        if isinstance(x, list):
+            return [norm(y) for y in x]
+        return x
+    for k in range(n_modules):
+        names, lines, nonconst = [], [], set()
+
+        def atom():
+            u = rng.random()
+            if u < 0.5 or not names:
+                return str(rng.randint(-3, 9))
+            return rng.choice(names)
+        for j in range(rng.randint(3, 9)):
+            nm = f'_T{j}'
+            u = rng.random()
+            ints = ', '.join(str(rng.randint(0, 8)) for _ in range(rng.randint(1, 6)))
+            seqs = [n for n in names if n not in nonconst and n.startswith('_T')]
+            if u < 0.25:
+                rhs = f'({ints},)'
+            elif u < 0.4:
+                rhs = f'[{ints}]'
+            elif u < 0.5:
+                rhs = f'range({rng.randint(0, 2)}, {rng.randint(3, 7)}' + \
+                    (f', {rng.randint(1, 3)})' if rng.random() < 0.5 else ')')
+            elif u < 0.6:
+                rhs = f'(slice({rng.randint(0, 3)}, {rng.choice([3, 6, None])}), slice({rng.randint(3, 6)}, None))'
+            elif u < 0.75 and seqs:
+                rhs = f'{rng.choice(["list", "tuple"] + (["np.array"] if np else []))}({rng.choice(seqs)})'
+            elif u < 0.85:
+                rhs = f'({atom()}, -{rng.randint(1, 5)}, {atom()})'
+            elif u < 0.93:
+                rhs = rng.choice(['len("abc")', 'sorted([2, 1])', '[x for x in (1, 2)]', '{1: 2}', '"s"'])
+                nonconst.add(nm)
+            else:
+                rhs = atom()
+            lines.append(f'{nm} = {rhs}')
+            names.append(nm)
+        if rng.random() < 0.5 and names:
+            twice = rng.choice(names)
+            lines.append(f'{twice} = (7, 7)')
+            nonconst.add(twice)
+        src = 'import numpy as np\n' + '\n'.join(lines) + '\n' if np else '\n'.join(lines) + '\n'
+        ns = {}
+        try:
+            exec(compile(src, f'<synthetic {k}>', 'exec'), ns)
+        except Exception:                      # a generated module that does not run is skipped
+            continue
+        tr = c17_tensor.Translator({})
+        tr.load_consts(_ast.parse(src))
+        for nm, v in tr.consts.items():
+            checked += 1
+            real = norm(ns.get(nm))
+            if sum(1 for l in lines if l.startswith(nm + ' =')) != 1:
+                bad.append((src, nm, 'claimed although assigned twice', repr(real)))
+            elif repr(v) != repr(real):
+                bad.append((src, nm, repr(v), repr(real)))
+    ctx.notes['translator_validation_const_evaluator'] = {'modules': n_modules, 'values_compared': checked,
+                                                          'mismatches': len(bad)}
+    for src, nm, v, real in bad[:2]:
+        ctx.violation('tie-broken', {'synthetic_module': src, 'name': nm}, real, v,
+                      'translator validation: Translator.cval = Python on synthetic modules',
+                      found_input=True, signature={'kind': 'translator-validation', 'name': nm, 'claimed': v},
+                      what='constant evaluator of translate/c17_tensor.py disagrees with Python')
+    return checked, len(bad)
 
 
 # -------------------------------------------------------------------- main
@@ -858,6 +951,8 @@ def main(ctx):
                             for m in c17_tensor.METHODS)
         ctx.notes['lte_rows_bound_by_id'] = dict(zip(c17_tensor.METHODS, LTE_BINDING))
         ctx.widened = True
+    # 1'. translator validation (constant evaluator against Python on synthetic modules)
+    validate_const_evaluator(ctx)
     # 1a. align_nnz: the key expression and the decisions the entry-level model relies on (T)
     align_T = True
     align_base = (lib.COQ / PID / 'gen_baseline' / 'AlignCfg.v.txt').read_text()
